@@ -95,6 +95,8 @@ pub struct Runner {
     pub sock_addr: Option<String>,
     /// the storage lock was found held for good (socket driver): no further projections are attempted
     pub stuck: bool,
+    /// probe the storage lock before every projection (set when requests were left unanswered)
+    pub probe_lock: bool,
 }
 
 pub struct Injected {
@@ -199,6 +201,7 @@ impl Runner {
             injected: None,
             sock_addr: None,
             stuck: false,
+            probe_lock: false,
         };
         r.open()?;
         if job["twin"].as_bool() == Some(true) {
@@ -295,7 +298,7 @@ impl Runner {
             return if self.last.is_empty() { self.clients.iter().map(|_| CsDump::default()).collect() } else { self.last.clone() };
         }
         let st = self.storage.as_ref().unwrap().clone();
-        if self.driver_kind == "sock" {
+        if self.driver_kind == "sock" || self.probe_lock {
             // a handler of the socket server may still sit on the storage lock (it is the code under test): the projection
             // must not wait for it for ever.  A probe transaction is begun on a helper thread first.
             let free = if self.stuck {
